@@ -44,11 +44,12 @@ def validRun (t : String) : Option Unit :=
     if a.toNat?.isSome && b.toNat?.isSome && c.toNat?.isSome && validPool p then some () else none
   | _ => none
 
-/-- `seed` or `seed.pool` -/
+/-- `seed`, `seed.pool` or `seed.pool.watchdog-seconds` -/
 def validSeed (s : String) : Bool :=
   match s.splitOn "." with
   | [a] => a.toNat?.isSome
   | [a, p] => a.toNat?.isSome && validPool p
+  | [a, p, w] => a.toNat?.isSome && validPool p && (match w.toNat? with | some n => 1 ≤ n && n ≤ 600 | none => false)
   | _ => false
 
 def validRuns (s : String) : Option Nat :=
